@@ -659,3 +659,205 @@ Proof.
   cbv zeta. split; [reflexivity|]. split; [|vm_compute; reflexivity].
   intros d a Hd Ha. cbn in Hd. destruct Hd as [H|[H|[H|[]]]]; discriminate.
 Qed.
+
+(* ================================================================== wave 11: string / enum Aggregate, string Subset == *)
+
+(* Reading aid.  abs_scol c reads an scolumn.Column struct back as a model column: one optional string per pointer,
+   what bytesAt answers at that row (it is the scolumn_AsColumn these theorems instantiate the generated code
+   with, as abs_ecol is for the enum column).  Under the representation it is the represented column: *)
+Theorem T1_aggr_scolumn_abs_rep (c : ga_scolumn_Column) (d : list (option bytes)) :
+  rep_scol c d -> length (ga_scolumn_Column_pointers c) = length d -> abs_scol c = SCol d.
+Proof. exact (abs_scol_rep c d). Qed.
+Print Assumptions T1_aggr_scolumn_abs_rep.
+Example T1_aggr_scolumn_abs_rep_example :
+  let c := ga_mk_scolumn_Column [gf_strings_NewPointer 0 2 false; gf_strings_NewPointer 2 5 true] [97; 98]%N in
+  rep_scol c [Some [97; 98]%N; None] /\ length (ga_scolumn_Column_pointers c) = length [Some [97; 98]%N; None].
+Proof. cbv zeta. split; [apply rep_scol_check_sound; vm_compute; reflexivity|reflexivity]. Qed.
+
+(* ------------------------------------------------------------------ (1) Column.Aggregate of scolumn and ecolumn *)
+(* The function value is the model's aggfn: a string is ga_FnString (error: no built-in is defined for strings),
+   GUser TString tbl is a func([]*string) *string given as the recorded table tbl (m_fn_cases_string), any other
+   value — also a user function of another type — is the default branch (error).  Premises: the representation
+   rep_scol of the receiver (string column only) and agg_result_small: IF the model's aggregation answers the
+   strings r THEN r is within the limits of pointer.go (all bytes < 2^35, each string < 2^28) — scolumn.New packs
+   the results into pointers; beyond the limits the bit fields collide.  No premise on the groups: a position
+   outside the column panics on both sides. *)
+Theorem T1_aggr_scolumn_Aggregate (ft : float_table) (c : ga_scolumn_Column) (d : list (option bytes))
+  (gs : list (list nat)) (fn : aggfn) :
+  rep_scol c d -> agg_result_small ft (SCol d) gs fn ->
+  ga_scolumn_Column_Aggregate m_new_error m_fn_cases_string m_fn_text abs_scol c (map ints gs) fn
+  = m_col_Aggregate ft (SCol d) (map ints gs) fn.
+Proof. exact (ga_scolumn_Aggregate_eq ft c d gs fn). Qed.
+Print Assumptions T1_aggr_scolumn_Aggregate.
+Example T1_aggr_scolumn_Aggregate_example :
+  (* the null pointer of row 1 carries a stale length field 5; the second group is one null row, so the function
+     must see [nil] there — and not what an earlier group left in a shared buffer *)
+  let c := ga_mk_scolumn_Column [gf_strings_NewPointer 0 2 false; gf_strings_NewPointer 2 5 true;
+                                 gf_strings_NewPointer 2 1 false] [97; 98; 99]%N in
+  let d := [Some [97; 98]%N; None; Some [99%N]] in
+  let fn := GUser TString [([CStr (Some [97; 98]%N); CStr (Some [99%N])], CStr (Some [120%N])); ([CStr None], CStr None);
+                           ([CStr (Some [97; 98]%N)], CStr (Some [121%N]))] in
+  let gs := [[0%nat; 2%nat]; [1%nat]] in
+  rep_scol c d /\ agg_result_small [] (SCol d) gs fn
+  /\ ga_scolumn_Column_Aggregate m_new_error m_fn_cases_string m_fn_text abs_scol c (map ints gs) fn
+     = Ok (Some (SCol [Some [120%N]; None]), None).
+Proof.
+  cbv zeta. split; [apply rep_scol_check_sound; vm_compute; reflexivity|]. split; [|vm_compute; reflexivity].
+  intros r H. vm_compute in H. inversion H; subst r. apply strs_small_b_sound. vm_compute. reflexivity.
+Qed.
+
+(* the enum column hands the function &c.values[v] (nil for the null rank, a panic for an undeclared rank) and
+   answers a STRING column; strict is not looked at *)
+Theorem T1_aggr_ecolumn_Aggregate (ft : float_table) (d : list N) (values : list bytes) (strict : bool)
+  (gs : list (list nat)) (fn : aggfn) :
+  agg_result_small ft (ECol d values strict) gs fn ->
+  ga_ecolumn_Column_Aggregate m_new_error m_fn_cases_string m_fn_text abs_scol (emb_ecol d values strict) (map ints gs) fn
+  = m_col_Aggregate ft (ECol d values strict) (map ints gs) fn.
+Proof. exact (ga_ecolumn_Aggregate_eq ft d values strict gs fn). Qed.
+Print Assumptions T1_aggr_ecolumn_Aggregate.
+Example T1_aggr_ecolumn_Aggregate_example :
+  let fn := GUser TString [([CStr (Some [98%N]); CStr None], CStr (Some [120%N])); ([CStr (Some [97%N])], CStr None)] in
+  let gs := [[0%nat; 1%nat]; [2%nat]] in
+  agg_result_small [] (ECol [1; 255; 0]%N [[97%N]; [98%N]] true) gs fn
+  /\ ga_ecolumn_Column_Aggregate m_new_error m_fn_cases_string m_fn_text abs_scol
+       (emb_ecol [1; 255; 0]%N [[97%N]; [98%N]] true) (map ints gs) fn
+     = Ok (Some (SCol [Some [120%N]; None]), None).
+Proof.
+  cbv zeta. split; [|vm_compute; reflexivity].
+  intros r H. vm_compute in H. inversion H; subst r. apply strs_small_b_sound. vm_compute. reflexivity.
+Qed.
+(* a built-in name and a function of another type are errors on both sides (no premise is needed: the premise is
+   vacuous when the model answers an error) *)
+Example T1_aggr_string_Aggregate_errors :
+  let c := ga_mk_scolumn_Column [gf_strings_NewPointer 0 1 false] [97%N] in
+  ga_scolumn_Column_Aggregate m_new_error m_fn_cases_string m_fn_text abs_scol c (map ints [[0%nat]]) (GName (bs 3 0x6d6178))
+  = Ok (None, Some tt)
+  /\ ga_ecolumn_Column_Aggregate m_new_error m_fn_cases_string m_fn_text abs_scol (emb_ecol [0%N] [[97%N]] false)
+       (map ints [[0%nat]]) (GUser TInt []) = Ok (None, Some tt).
+Proof. cbv zeta. split; vm_compute; reflexivity. Qed.
+
+(* ------------------------------------------------------------------ (2) Column.subset / Column.Subset of scolumn *)
+(* The struct subset builds, for every index: a panic when a position is outside the column (the model panics
+   too), else sub_scol c ix r — the bytes of the strings r of the subset, and per row a pointer (running offset,
+   length, null bit) EXCEPT that the pointer of a null row keeps the length field of the source pointer
+   (lens c ix): it is NOT layout r 0, the struct scolumn.New would build.  Premise: rep_scol only. *)
+Theorem T1_aggr_scolumn_subset_struct (c : ga_scolumn_Column) (d : list (option bytes)) (ix : list nat) :
+  rep_scol c d ->
+  ga_scolumn_Column_subset c (ints ix) = omap1 (sub_scol c ix) (omap (idx d) ix).
+Proof. exact (ga_scolumn_subset_eq c d ix). Qed.
+Print Assumptions T1_aggr_scolumn_subset_struct.
+
+(* THE INVARIANT: a layout whose null pointers carry ANY 28 bit length field represents its strings (within the
+   limits of pointer.go); the length fields of source pointers are 28 bit numbers whatever the pointer is *)
+Theorem T1_aggr_scolumn_layoutL_rep (l : list (option bytes)) (ls : list Z) :
+  strs_small l 0 -> lens_ok ls -> rep_scol (ga_mk_scolumn_Column (layoutL ls l 0) (bytes_of l)) l.
+Proof. exact (rep_scol_layoutL l ls). Qed.
+Print Assumptions T1_aggr_scolumn_layoutL_rep.
+Example T1_aggr_scolumn_layoutL_rep_example :
+  strs_small [None; Some [97; 98]%N; None] 0 /\ lens_ok [5; 0; 268435455].
+Proof. split; [apply strs_small_b_sound; vm_compute; reflexivity|]. repeat constructor; lia. Qed.
+
+(* the generated subset REPRESENTS the model's col_subset of the column: a panic exactly when the model panics, else
+   a struct c' with rep_scol c' r and one pointer per row.  Premise besides rep_scol: subset_small — IF the index
+   is inside the column THEN the strings of the subset are within the limits of pointer.go (an index may repeat
+   rows, so the subset can be larger than the column) *)
+Theorem T1_aggr_scolumn_Subset (c : ga_scolumn_Column) (d : list (option bytes)) (ix : list nat) :
+  rep_scol c d -> subset_small d ix ->
+  match col_subset (SCol d) ix with
+  | Ok (SCol r) => exists c', ga_scolumn_Column_subset c (ints ix) = Ok c' /\ rep_scol c' r
+                              /\ length (ga_scolumn_Column_pointers c') = length r
+  | Ok _ => False
+  | Fail => False
+  | Panic => ga_scolumn_Column_subset c (ints ix) = Panic
+  end.
+Proof. exact (ga_scolumn_subset_rep c d ix). Qed.
+Print Assumptions T1_aggr_scolumn_Subset.
+
+(* ... and read back through abs_scol it is the m_col_Subset the frame level is instantiated with *)
+Theorem T1_aggr_scolumn_Subset_abs (c : ga_scolumn_Column) (d : list (option bytes)) (ix : list nat) :
+  rep_scol c d -> subset_small d ix ->
+  ga_scolumn_Column_Subset abs_scol c (ints ix) = m_col_Subset (SCol d) (ints ix).
+Proof. exact (ga_scolumn_Subset_eq c d ix). Qed.
+Print Assumptions T1_aggr_scolumn_Subset_abs.
+Example T1_aggr_scolumn_Subset_example :
+  (* row 1 is null with the stale length field 5: the subset keeps the 5 in both copies of that row *)
+  let c := ga_mk_scolumn_Column [gf_strings_NewPointer 0 2 false; gf_strings_NewPointer 2 5 true] [97; 98]%N in
+  let d := [Some [97; 98]%N; None] in
+  let ix := [1%nat; 0%nat; 1%nat] in
+  rep_scol c d /\ subset_small d ix
+  /\ ga_scolumn_Column_subset c (ints ix)
+     = Ok (ga_mk_scolumn_Column [gf_strings_NewPointer 0 5 true; gf_strings_NewPointer 0 2 false;
+                                 gf_strings_NewPointer 2 5 true] [97; 98]%N)
+  /\ ga_scolumn_Column_Subset abs_scol c (ints ix) = Ok (Some (SCol [None; Some [97; 98]%N; None]))
+  /\ ga_scolumn_Column_subset c (ints [2%nat]) = Panic.
+Proof.
+  cbv zeta. split; [apply rep_scol_check_sound; vm_compute; reflexivity|].
+  split; [|repeat split; vm_compute; reflexivity].
+  intros r H. vm_compute in H. inversion H; subst r. apply strs_small_b_sound. vm_compute. reflexivity.
+Qed.
+
+(* ------------------------------------------------------------------ (3) the composition over ALL five column types *)
+(* Grouper.Aggregate with col.Subset asked only at the first elements of the groups (what the code does) *)
+Theorem T1_aggr_Aggregate_any_column_level_at (ft : float_table) (g : grouper)
+  (colS : coldata -> list Z -> outcome (option coldata))
+  (colA : coldata -> list (list Z) -> aggfn -> outcome (option coldata * option unit)) (aggs : list aggregation) :
+  (forall firsts c, group_firsts g = Ok firsts -> In c (map snd (gcols g)) ->
+     colS c (ints firsts) = omap1 Some (col_subset c firsts)) ->
+  Z.of_nat (length (gindices g)) < 4294967296 ->
+  (forall c a, In c (map snd (gcols g)) -> In a aggs -> is_count (agfn a) = false ->
+     colA c (map ints (gindices g)) (agfn a) = agg_pair (col_aggregate ft c (gindices g) (agfn a))) ->
+  ga_Grouper_Aggregate m_new_error m_propagate m_unknownCol m_fn_eq_string colS colA
+    m_icolumn_New (emb_grouper g) (map emb_agg aggs)
+  = omap1 emb_frame (aggregate ft g aggs).
+Proof. exact (ga_Grouper_Aggregate_gen_at ft g colS colA aggs). Qed.
+Print Assumptions T1_aggr_Aggregate_any_column_level_at.
+
+(* ... instantiated with the TRANSLATED Column.Subset and Column.Aggregate of all five column packages
+   (tr_col_Subset_all / tr_col_Aggregate_all), for groupers over columns of any types.  What remains open:
+   srep — which struct holds each string column of the grouper (ANY function with srep_ok: the struct represents
+   the column; new_scol, the struct of scolumn.New, is one); the float arithmetic fzero / fadd / fdiv / fofint
+   (any, with float_oracle_ok as before; math.Max / math.Min are the model's); str_limits_ok — the limits of
+   pointer.go for the key rows of the string columns and for the strings the aggregation functions return; the
+   user functions are recorded tables; error values are tt; the hash table that built g.indices is tied in
+   T1_aggr_GroupBy_table / T1Grouper. *)
+Theorem T1_aggr_Aggregate_composed_all (srep : list (option bytes) -> ga_scolumn_Column) (ft : float_table)
+  (fzero : N) (fadd fdiv : N -> N -> N) (fofint : Z -> N) (g : grouper) (aggs : list aggregation) :
+  Z.of_nat (length (gindices g)) < 4294967296 ->
+  float_oracle_ok ft fzero fadd fdiv fofint g aggs ->
+  srep_ok srep g -> str_limits_ok ft g aggs ->
+  ga_Grouper_Aggregate m_new_error m_propagate m_unknownCol m_fn_eq_string (tr_col_Subset_all srep fzero)
+    (tr_col_Aggregate_all srep ft fzero fadd fdiv fofint) m_icolumn_New (emb_grouper g) (map emb_agg aggs)
+  = omap1 emb_frame (aggregate ft g aggs).
+Proof. exact (ga_Grouper_Aggregate_composed_all srep ft fzero fadd fdiv fofint g aggs). Qed.
+Print Assumptions T1_aggr_Aggregate_composed_all.
+Example T1_aggr_Aggregate_composed_all_example :
+  (* grouped by the string column (one group is the null key); a user function on the enum column and one on the
+     string column itself *)
+  let sd := [Some [97; 98]%N; Some [97; 98]%N; None] in
+  let g := mkGrouper [([1%N], SCol sd); ([2%N], ECol [0; 1; 255]%N [[97%N]; [98%N]] true); ([3%N], ICol [5; 6; 7])]
+             [[1%N]] [[0%nat; 1%nat]; [2%nat]] false in
+  let fe := GUser TString [([CStr (Some [97%N]); CStr (Some [98%N])], CStr (Some [120%N])); ([CStr None], CStr None)] in
+  let fs := GUser TString [([CStr (Some [97; 98]%N); CStr (Some [97; 98]%N)], CStr None); ([CStr None], CStr (Some [122%N]))] in
+  let aggs := [mkAgg fe [2%N] []; mkAgg fs [1%N] [9%N]; mkAgg (GName (bs 3 0x73756d)) [3%N] []] in
+  Z.of_nat (length (gindices g)) < 4294967296 /\ float_oracle_ok [] 0%N N.add N.add (fun _ => 0%N) g aggs
+  /\ srep_ok new_scol g /\ str_limits_ok [] g aggs
+  /\ ga_Grouper_Aggregate m_new_error m_propagate m_unknownCol m_fn_eq_string (tr_col_Subset_all new_scol 0%N)
+       (tr_col_Aggregate_all new_scol [] 0%N N.add N.add (fun _ => 0%N)) m_icolumn_New (emb_grouper g) (map emb_agg aggs)
+     = Ok (emb_frame (mkFrame [([1%N], SCol [Some [97; 98]%N; None]); ([2%N], SCol [Some [120%N]; None]);
+                               ([9%N], SCol [None; Some [122%N]]); ([3%N], ICol [11; 7])]
+                        [0%nat; 1%nat] false)).
+Proof.
+  cbv zeta. split; [reflexivity|]. split.
+  { intros d a Hd Ha. cbn in Hd. destruct Hd as [H|[H|[H|[]]]]; discriminate. }
+  split.
+  { intros d Hd. cbn in Hd. destruct Hd as [H|[H|[H|[]]]]; try discriminate. inversion H; subst d.
+    apply rep_scol_check_sound. vm_compute. reflexivity. }
+  split; [|vm_compute; reflexivity].
+  split.
+  - intros d firsts Hd Hf. cbn in Hd. destruct Hd as [H|[H|[H|[]]]]; try discriminate. inversion H; subst d.
+    vm_compute in Hf. inversion Hf; subst firsts.
+    intros r Hr. vm_compute in Hr. inversion Hr; subst r. apply strs_small_b_sound. vm_compute. reflexivity.
+  - intros c a Hc Ha r Hr. cbn in Hc, Ha.
+    destruct Hc as [H|[H|[H|[]]]]; subst c; destruct Ha as [H|[H|[H|[]]]]; subst a;
+      vm_compute in Hr; try discriminate; inversion Hr; subst r; apply strs_small_b_sound; vm_compute; reflexivity.
+Qed.
